@@ -20,8 +20,8 @@ LEVEL = "exploration"
 RULE = (
     "containers {PatchedCounts, PatchedSumWeights, NormalisedCounts, CorrFunc (7 member subsets), "
     "CorrData, HistData, RedshiftData} x bins {1,2,3} x patches {2,3,4} x auto/cross with "
-    "fingerprint contents; on each: +, sum(), -, * for scalars {0,1,2,-1,0.5,float64(3)} and rejected "
-    "{True,'2',None,array}, ==/!= against copy and 6 perturbations, incompatible operands, "
+    "fingerprint contents; on each: +, sum(), the accumulation idiom total=0; total+=c (twice, operands unchanged), -, * for scalars {0,1,2,-1,0.5,float64(3)} and rejected "
+    "{True,'2',None,array}, ==/!= against copy and 6 perturbations (data containers also with the same NaN jackknife sample on both sides), incompatible operands, "
     ".bins[e]/.patches[e] for every int in [-n,n-1], out-of-range ints, every slice with "
     "start,stop in {None,-n..n}, stepped slices (step 2,3; omitted bins merge into the preceding selected bin), iteration, loops over a retained indexer after abandoned loops; commuting with sample_patch_sum/sample. "
     "Non-trivial: container with >= 2 bins or an auto container (every case has >= 2 patches); "
@@ -179,6 +179,14 @@ def run_case(case):
         rec.expect_true("eq", lambda p=p: not (x == p) and (x != p),
                         f"container compares equal to one with different {name}")
     rec.expect_true("eq", lambda: not (x == 1) and not (x == None), "equal to a non-container")  # noqa: E711
+    if is_data and N >= 2:
+        # an undefined (NaN) jackknife sample, e.g. a bin whose pairs all come from one patch: still equal to itself
+        def nan_sample_equal():
+            a, b = C.clone(x), C.clone(x)
+            for obj in (a, b):
+                obj.samples[0, -1] = np.nan
+            return (a == a) and (a == b) and not (a != b) and (a == C.clone(a)) and not (a == x)
+        rec.expect_true("eq", nan_sample_equal, "containers with the same NaN jackknife sample compare unequal")
     if T == "CorrFunc":  # structural over the optional members, in both directions
         for other_members in C.MEMBER_SUBSETS:
             if set(other_members) == set(members):
@@ -201,6 +209,15 @@ def run_case(case):
             rec.expect_value("sum", lambda: sum([x, z]), C.added(sx, sz), what="sum([x, z])")
             rec.expect_value("sum", lambda: sum([x, z, x]), C.added(C.added(sx, sz), sx),
                              what="sum([x, z, x])")
+        if T in ("PatchedCounts", "NormalisedCounts"):
+            # the accumulation idiom behind sum(): total = 0; total += c for every c - the operands stay what they were
+            def accumulate():
+                total = 0
+                for c in (x, z, x):
+                    total += c
+                return total
+            rec.expect_value("sum", accumulate, C.added(C.added(sx, sz), sx), what="(0 += x += z += x)")
+            rec.expect_value("sum", accumulate, C.added(C.added(sx, sz), sx), what="(0 += x += z += x) repeated")
         if is_data:
             rec.expect_value("sub", lambda: x - z, C.added(sx, sz, -1.0), what="(x - z)")
         # operands must not be mutated
